@@ -1,5 +1,6 @@
 #include <mutex>
 #include <nano/critical.h>
+#include <nano/verif.h>
 #include <solver/asga.h>
 #include <solver/cgd.h>
 #include <solver/cocob.h>
@@ -117,6 +118,7 @@ solver_state_t solver_t::minimize(const function_t& function, const vector_t& x0
 
 bool solver_t::done(solver_state_t& state, const bool iter_ok, const bool converged, const logger_t& logger) const
 {
+    NANO_VERIF_EVENT(::nano::verif::ev_solver_done, &state, iter_ok ? 1U : 0U, converged ? 1U : 0U);
     state.update_calls();
 
     if (const auto step_ok = iter_ok && state.valid(); converged || !step_ok)
@@ -124,12 +126,14 @@ bool solver_t::done(solver_state_t& state, const bool iter_ok, const bool conver
         // either converged or failed
         state.status(converged ? solver_status::converged : solver_status::failed);
         logger.info("[solver-", type_id(), "]: ", state, ".\n");
+        NANO_VERIF_EVENT(::nano::verif::ev_solver_exit, &state, 1U);
         return true;
     }
     else
     {
         // OK, go on with the optimization
         logger.info("[solver-", type_id(), "]: ", state, ".\n");
+        NANO_VERIF_EVENT(::nano::verif::ev_solver_exit, &state, 0U);
         return false;
     }
 }
